@@ -4,12 +4,14 @@ use hxlib::*;
 mod big;
 mod c32;
 mod c33;
+mod c34;
 
 fn main() {
   let args = parse_args();
   match args.prop.as_str() {
     "C32" => drive(&args, c32::gen, c32::run),
     "C33" => drive(&args, c33::gen, c33::run),
+    "C34" => drive(&args, c34::gen, c34::run),
     p => {
       eprintln!("unknown property {p}");
       std::process::exit(2);
